@@ -248,6 +248,77 @@ func runC12(c *eng.Ctx) {
 
 	// ---- R12.5 membership bookkeeping: every join / leave / stream deletion updates members, subscriber heaps and assignments together
 	c.Rule("R12.5", "K2")
+	ruleGroupBookkeeping(c)
+	c.Floor(25)
+
+	// ---- R12.6 acquire/release pairing
+	c.Rule("R12.6", "K2")
+	ruleLockPairing(c, "server/groups.go")
+	c.Floor(10)
+
+	// ---- R12.5 shared with C06
+	c.Rule("R06.2", "K8")
+	if fn := c.Fn("server.(*metadataAPI).removeStream"); fn != nil {
+		eng.Instrs(fn, func(in ssa.Instruction) {
+			call, ok := in.(*ssa.Call)
+			if !ok || !strings.HasPrefix(eng.CalleeRef(&call.Call), "server.Server.startGoroutine") {
+				return
+			}
+			var target *ssa.Function
+			for _, a := range call.Call.Args {
+				if f := funcValue(a); f != nil {
+					target = f
+				}
+			}
+			if target == nil {
+				return
+			}
+			w := writesReplicated(c, target, map[*ssa.Function]bool{})
+			c.Check(w == "", "goroutine started in server.(*metadataAPI).removeStream", c.Pos(in), "the asynchronous function writes no replicated field", "a goroutine started on the Raft apply path mutates replicated state ("+w+"): its effect is ordered arbitrarily against later applies, so servers can diverge")
+		})
+		sd := false
+		eng.InstrsDeep(fn, func(_ *ssa.Function, in ssa.Instruction) {
+			if ci, ok := in.(ssa.CallInstruction); ok && eng.CalleeRef(ci.Common()) == "server.consumerGroup.StreamDeleted" {
+				sd = true
+			}
+		})
+		c.Check(sd, "stream deletion reaches the groups", p.Pos(fn.Pos()), "StreamDeleted is invoked for every group", "removeStream no longer tells consumer groups about the deleted stream: assignments keep pointing at it")
+	}
+	c.Floor(1)
+}
+
+// freeVarNamed matches a variable captured from the enclosing function: Strip resolves a single-store captured cell to the
+// value stored (the enclosing function's parameter); otherwise the free variable itself is matched.
+func freeVarNamed(name string) eng.VM {
+	return func(v ssa.Value) bool {
+		if eng.Param(name)(v) {
+			return true
+		}
+		v = eng.Strip(v)
+		if u, ok := v.(*ssa.UnOp); ok && u.Op == token.MUL {
+			v = u.X
+		}
+		fv, ok := v.(*ssa.FreeVar)
+		return ok && fv.Name() == name
+	}
+}
+
+// isLoopHeader: the block has a predecessor that it dominates (a back edge).
+func isLoopHeader(b *ssa.BasicBlock) bool {
+	for _, pr := range b.Preds {
+		if b.Dominates(pr) {
+			return true
+		}
+	}
+	return false
+}
+
+// ruleGroupBookkeeping (R12.5, shared with C06): joins, leaves and stream deletions update members, subscriber heaps and
+// assignments together, so that the in-memory group state stays the function of (members, subscriptions, partitions) that a
+// restore recomputes from scratch.
+func ruleGroupBookkeeping(c *eng.Ctx) {
+	p := c.P
+	ge := p.Field("server", "consumerGroup", "epoch")
 	isBuiltin := func(name string, argv ...eng.VM) func(ssa.Instruction) bool {
 		return func(in ssa.Instruction) bool {
 			call, ok := in.(*ssa.Call)
@@ -387,6 +458,34 @@ func runC12(c *eng.Ctx) {
 					okReb = true
 				}
 			}
+		}
+		// every subscriber of the deleted stream contributes its other streams to the rebalance set: nothing between dropping
+		// its assignments and collecting its streams may skip the collection (its load count changed, whatever it held)
+		for _, rs := range eng.CallsIn(fn, "server.consumer.removeStreamAssignments") {
+			var outerNext ssa.Instruction
+			eng.Instrs(fn, func(in ssa.Instruction) {
+				if nx, isN := in.(*ssa.Next); isN {
+					if _, isRange := nx.Iter.(*ssa.Range); !isRange && outerNext == nil {
+						outerNext = in
+					}
+				}
+			})
+			isInner := func(x ssa.Instruction) bool {
+				r, isR := x.(*ssa.Range)
+				return isR && eng.LoadNamed("streams", nil)(r.X)
+			}
+			// back to the loop header (any Phi-headed block that dominates the call) without ranging over subscriber.streams
+			hdr := rs.(ssa.Instruction).Block()
+			for hdr != nil && !isLoopHeader(hdr) {
+				hdr = hdr.Idom()
+			}
+			if hdr != nil {
+				q := &eng.PathQuery{Fn: fn, FromAfter: []ssa.Instruction{rs.(ssa.Instruction)}, Target: func(x ssa.Instruction) bool { return x.Block() == hdr && x == hdr.Instrs[0] }, CutInstr: isInner}
+				if wq := q.Find(); wq != nil {
+					okReb = false
+				}
+			}
+			_ = outerNext
 		}
 		c.Check(okSub && w == nil && okReb, "a deleted stream leaves subscriptions, assignments and heaps, and the other streams are rebalanced", p.Pos(fn.Pos()), "per subscriber: delete(streams, stream), removeStreamAssignments(stream); delete(c.subscribers, stream); then rebalance the affected streams in sorted order", "StreamDeleted leaves the deleted stream in a subscription set, an assignment map or the subscriber table, or does not rebalance the streams whose load counts changed")
 	}
@@ -571,57 +670,5 @@ func runC12(c *eng.Ctx) {
 			w = mustPass(fn, nil, true, succ(1), isEpochStore)
 		}
 		c.Check(w == nil, k+" advances the group epoch", p.Pos(fn.Pos()), "c.epoch = epoch before every successful return that changed the group", k+" can change the group and keep the old epoch (path "+w.String()+"): two different assignments exist for one group epoch")
-	}
-	c.Floor(25)
-
-	// ---- R12.6 acquire/release pairing
-	c.Rule("R12.6", "K2")
-	ruleLockPairing(c, "server/groups.go")
-	c.Floor(10)
-
-	// ---- R12.5 shared with C06
-	c.Rule("R06.2", "K8")
-	if fn := c.Fn("server.(*metadataAPI).removeStream"); fn != nil {
-		eng.Instrs(fn, func(in ssa.Instruction) {
-			call, ok := in.(*ssa.Call)
-			if !ok || !strings.HasPrefix(eng.CalleeRef(&call.Call), "server.Server.startGoroutine") {
-				return
-			}
-			var target *ssa.Function
-			for _, a := range call.Call.Args {
-				if f := funcValue(a); f != nil {
-					target = f
-				}
-			}
-			if target == nil {
-				return
-			}
-			w := writesReplicated(c, target, map[*ssa.Function]bool{})
-			c.Check(w == "", "goroutine started in server.(*metadataAPI).removeStream", c.Pos(in), "the asynchronous function writes no replicated field", "a goroutine started on the Raft apply path mutates replicated state ("+w+"): its effect is ordered arbitrarily against later applies, so servers can diverge")
-		})
-		sd := false
-		eng.InstrsDeep(fn, func(_ *ssa.Function, in ssa.Instruction) {
-			if ci, ok := in.(ssa.CallInstruction); ok && eng.CalleeRef(ci.Common()) == "server.consumerGroup.StreamDeleted" {
-				sd = true
-			}
-		})
-		c.Check(sd, "stream deletion reaches the groups", p.Pos(fn.Pos()), "StreamDeleted is invoked for every group", "removeStream no longer tells consumer groups about the deleted stream: assignments keep pointing at it")
-	}
-	c.Floor(1)
-}
-
-// freeVarNamed matches a variable captured from the enclosing function: Strip resolves a single-store captured cell to the
-// value stored (the enclosing function's parameter); otherwise the free variable itself is matched.
-func freeVarNamed(name string) eng.VM {
-	return func(v ssa.Value) bool {
-		if eng.Param(name)(v) {
-			return true
-		}
-		v = eng.Strip(v)
-		if u, ok := v.(*ssa.UnOp); ok && u.Op == token.MUL {
-			v = u.X
-		}
-		fv, ok := v.(*ssa.FreeVar)
-		return ok && fv.Name() == name
 	}
 }
